@@ -24,6 +24,8 @@ struct Outcome {
     request: Option<Vec<u8>>,
 }
 
+pub fn encode_request_pub(files: &[slicec::slice_file::SliceFile]) -> Option<Vec<u8>> { encode_request(files) }
+
 fn encode_request(files: &[slicec::slice_file::SliceFile]) -> Option<Vec<u8>> {
     // the logic of `encode_generate_code_request` in main.rs
     let mut buf: Vec<u8> = Vec::new();
@@ -33,6 +35,7 @@ fn encode_request(files: &[slicec::slice_file::SliceFile]) -> Option<Vec<u8>> {
         let mut sources = Vec::new();
         let mut references = Vec::new();
         for f in files {
+            if f.module.is_none() { continue; } // as main.rs: a module-less file has no definitions and is left out
             let converted = crate::definition_types::SliceFile::from(f);
             if f.is_source { sources.push(converted) } else { references.push(converted) }
         }
